@@ -437,6 +437,32 @@ func (c *c07) run(pc PReadCase, doc []byte, newDoc bool, expect *PVal) {
 	guardP("PN.Load", func() PRes {
 		single := root.GetByPath(ps...)
 		r := c.observe(single, "PN.Load", items, true)
+		if len(items) == 0 && r.St == "found" && r.NK == "val" && single.Type() == dproto.MESSAGE {
+			// the root message loaded into a tree: one child per field present, each the node the getter returns
+			for _, recurse := range []bool{true, false} {
+				pn := pgen.PathNode{Node: single.Node}
+				if err := pn.Load(recurse, &pgen.Options{}, single.Desc); err != nil {
+					r.St, r.Note = "err", "Load: "+err.Error()
+					return r
+				}
+				for i := range pn.Next {
+					ch := &pn.Next[i]
+					if ch.Path.Type() != pgen.PathFieldId {
+						r.NK, r.Note = "unexpected", fmt.Sprintf("Load(%v): child %d of a message is not addressed by field number", recurse, i)
+						return r
+					}
+					if ch.Node.Type() == dproto.UNKNOWN {
+						continue // a field the schema does not declare
+					}
+					f := single.Field(ch.Path.Id())
+					if f.IsError() || f.Type() != ch.Node.Type() || string(f.Raw()) != string(ch.Node.Raw()) {
+						r.NK, r.Note = "unexpected", fmt.Sprintf("Load(%v): child %d is not field %d", recurse, i, ch.Path.Id())
+						return r
+					}
+				}
+			}
+			return r
+		}
 		if r.St != "found" || r.NK != "list" {
 			return r
 		}
